@@ -200,4 +200,40 @@ PROPS = {
         "exhaustive": {"quick": True, "thorough": True},
         "assumptions": ["the strict reader and the accessors are those of C10 (checked there)"],
     },
+    "C08": {
+        "claimed": True,
+        "technique": "TLA+ list model of a lossy paragraph (list laws checked by TLC); every history edge replayed on the real paragraph; printed text re-read with both readers at every state",
+        "level_text": "spec/MCLossyPara.tla models a lossy paragraph as the ordered list it is and set/insert/remove with the list semantics of Deb822EditP; TLC checks the list laws and enumerates all histories to the depth bound from five base paragraphs; the harness replays each on lossy::Paragraph, compares the field list, get, len after every step, and prints the resulting paragraph (and a two-paragraph document) and reads it back with the lossy and the lossless reader.",
+        "level_note": "bounded: histories <= 3 operations, <= 4 fields, 2 names, 6 value shapes (single line, several lines, empty, empty first line, trailing blanks / ':' / '#', non-ASCII with ':' and '-' continuation lines) x 3 concretisations",
+        "stages": [{"kind": "tlc_replay", "name": "lossy_para_edges", "module": "MCLossyPara.tla", "cfg": "MCLossyPara.cfg", "stage": "lossy_para", "coverage": False,
+                    "consts": {"quick": {"Depth": 2, "MaxF": 4}, "thorough": {"Depth": 3, "MaxF": 5}},
+                    "workers": {"quick": 8, "thorough": 12}, "timeout": {"quick": 300, "thorough": 3000}}],
+        "rule": "every edge (base paragraph, history, operation) of the TLC graph; all distinct",
+        "exhaustive": {"quick": True, "thorough": True},
+        "assumptions": ["value lines contain no CR/LF, are non-empty and do not start with blank space; continuation lines do not start with '#'"],
+    },
+    "C17": {
+        "claimed": True,
+        "technique": "TLA+ definition of DEP-5 glob matching and of last-match / licence resolution; TLC computes, per pattern, the exact set of matching paths and, per generated copyright file, the expected paragraph and licence for each path; replayed on both readers",
+        "level_text": "spec/MCCopyright.tla defines Match by structural recursion over pattern tokens and the lookup rules; TLC enumerates every pattern up to the token bound with the full set of paths it matches over a path alphabet containing the metacharacters, and every copyright file built from two or three Files paragraphs (pattern pool, one or two patterns on the same or a continuation line, inline or by-name licences) with stand-alone licence paragraphs; the harness embeds each in a real copyright file and compares FilesParagraph::matches / find_files / find_license_for_file / find_license_by_name of the lossless and the lossy reader with the expectation, plus the Format gate.",
+        "level_note": "bounded: patterns <= 3 tokens (4 thorough) over literals incl. regex metacharacters, '*', '?', the three escapes; paths <= 3 (4) characters; backslash before any other character is a DEP-5 error and outside",
+        "stages": [{"kind": "tlc_replay", "name": "glob_and_lookup", "module": "MCCopyright.tla", "cfg": "MCCopyright.cfg", "stage": "copyright",
+                    "consts": {"quick": {"PatLen": 3, "PathLen": 3, "Wide": "FALSE"}, "thorough": {"PatLen": 3, "PathLen": 4, "Wide": "TRUE"}},
+                    "workers": {"quick": 8, "thorough": 16}, "timeout": {"quick": 600, "thorough": 6000}}],
+        "rule": "one case per pattern (with all paths up to the bound) and per generated copyright file (with 6 paths); executions = (pattern, path) and (file, path) pairs",
+        "exhaustive": {"quick": True, "thorough": True},
+        "assumptions": ["the regex crate implements the translated expression correctly"],
+    },
+    "C19": {
+        "claimed": True,
+        "technique": "TLA+ line machine of the clear-sign unwrapper with outcome known by construction (wrap, cut after every line, append lines); TLC proves machine = construction and every case is replayed on strip_pgp_signature",
+        "level_text": "spec/MCPgp.tla builds messages from (headers, payload, signature) line sets, cuts them after every line (with and without final LF) or appends lines, and states the outcome that construction demands; TLC proves the implementation-shaped line machine yields it; each case is concretised (marker look-alikes, deb822 content, blank lines) and strip_pgp_signature's payload, signature or specific error compared; unsigned texts must pass through unchanged; all short line-class sequences are compared with the machine as drift.",
+        "level_note": "bounded: <= 2 header lines, <= 2 (3 thorough) payload lines over {text, empty, deb822-looking, look-alike}, <= 2 signature lines; lines contain no CR",
+        "stages": [{"kind": "tlc_replay", "name": "pgp_messages", "module": "MCPgp.tla", "cfg": "MCPgp.cfg", "stage": "pgp",
+                    "consts": {"quick": {"MaxPayload": 2, "SeqLen": 4}, "thorough": {"MaxPayload": 3, "SeqLen": 6}},
+                    "workers": {"quick": 8, "thorough": 16}, "timeout": {"quick": 300, "thorough": 3000}}],
+        "rule": "every (headers, payload, signature) x cut point x trailing addition x final-LF; unsigned texts; distinct = distinct line-class sequences of length >= 2",
+        "exhaustive": {"quick": True, "thorough": True},
+        "assumptions": ["payload lines do not begin with '-' (no dash-escaping), as the property states"],
+    },
 }
